@@ -24,6 +24,7 @@ def OWpark (p0 : List Cmd) (t : Task) (mine : List Mut) : Prop :=
   | .bodySleep _ => mine = [] ∧ Cont p0 t.prog t
   | .seedGet k n => mine = [] ∧ Cont p0 (.incr k n :: t.prog) t ∧ t.ov.get k = none ∧ k ∉ t.del
   | .readGet k => mine = [] ∧ Cont p0 (.get k :: t.prog) t ∧ t.ov.get k = none ∧ k ∉ t.del
+  | .expGet k => mine = [] ∧ Cont p0 (.expire k :: t.prog) t ∧ t.ov.get k = none ∧ k ∉ t.del
   | .commitDel => mine = [] ∧ specBody p0 t.reads {} = .normal t.bst [] ∧ t.del ≠ []
   | .commitSet => mine = (if t.del ≠ [] then [Mut.delMany t.del] else []) ∧
       specBody p0 t.reads {} = .normal t.bst [] ∧ t.ov ≠ []
@@ -59,6 +60,17 @@ theorem spec_localCmd {t t' : Task} {c : Cmd} (hl : localCmd t c = some t') (res
         simp [specBody, Task.bst, hd, hv]
     · simp at hl
   case delete k => split at hl <;> simp at hl; subst hl; simp [specBody, Task.bst]
+  case expire k =>
+    split at hl
+    · split at hl
+      · rename_i hd
+        simp at hl; subst hl; simp [specBody, Task.bst, hd]
+      · rename_i hd
+        split at hl <;> simp at hl
+        subst hl
+        rename_i v hv
+        simp [specBody, Task.bst, hd, hv]
+    · simp at hl
   case sleep d => simp at hl
   case raise => simp at hl
   case nestIn f => simp at hl; subst hl; simp [specBody, Task.bst]
@@ -146,6 +158,19 @@ theorem OWpark_settle {p0 : List Cmd} (now : Nat) (prog : List Cmd) (t : Task) (
           | none => rfl
           | some v => simp [hd, hg] at hl
       · intro hd; simp [hd] at hl
+    case expire k =>
+      split
+      · rename_i hh
+        simp only [localCmd, hc, hh, Bool.and_self, if_true] at hl
+        simp only [OWpark]
+        refine ⟨trivial, h, ?_, ?_⟩
+        · by_cases hd : k ∈ t.del
+          · simp [hd] at hl
+          · cases hg : t.ov.get k with
+            | none => rfl
+            | some v => simp [hd, hg] at hl
+        · intro hd; simp [hd] at hl
+      · exact OWpark_lockOrFail h
     case nestIn f => simp [localCmd] at hl
     case nestOut => simp [localCmd] at hl
 
@@ -173,9 +198,13 @@ theorem taskStep_isTx (tid now : Nat) (store : Store) (lock : Locks) (t : Task) 
   case readGet k =>
     rw [taskStep_readGet _ _ _ _ _ hpc]
     exact ⟨(Frame_settle _ _ _).isTx, fun hc => (Frame_settle _ _ _).ctx.trans hc⟩
+  case expGet k =>
+    rw [taskStep_expGet _ _ _ _ _ hpc]
+    exact ⟨(Frame_settle_expBuffer _ _ _ _).isTx, fun hc => (Frame_settle_expBuffer _ _ _ _).ctx.trans hc⟩
   case direct c =>
     rw [taskStep_direct _ _ _ _ _ hpc]
     cases c <;> simp only [directStep]
+    case expire k => exact ⟨(Frame_settle _ _ _).isTx, fun hc => (Frame_settle _ _ _).ctx.trans hc⟩
     case set k v => exact ⟨(Frame_settle _ _ _).isTx, fun hc => (Frame_settle _ _ _).ctx.trans hc⟩
     case incr k n => exact ⟨(Frame_settle _ _ _).isTx, fun hc => (Frame_settle _ _ _).ctx.trans hc⟩
     case get k => exact ⟨(Frame_settle _ _ _).isTx, fun hc => (Frame_settle _ _ _).ctx.trans hc⟩
@@ -240,6 +269,21 @@ theorem OW_taskStep {p0 : List Cmd} {t : Task} {mine : List Mut} (hc : t.ctx = t
     simp only [specBody, Task.bst, hov, hdel, if_false] at this
     simp only [List.append_assoc, List.singleton_append]
     rw [this]; rfl
+  case expGet k =>
+    obtain ⟨hm, hcont, hov, hdel⟩ := h
+    subst hm
+    rw [taskStep_expGet _ _ _ _ _ hpc]
+    have e := expBuffer_frame t k (store k)
+    refine OWpark_settle now _ _ (e.2.2.2.2.1.trans hc) ?_
+    rw [e.2.2.2.2.2.2.1]
+    intro fr
+    have := hcont (store k :: fr)
+    rw [e.2.2.2.2.2.2.2.2.2]
+    simp only [List.append_assoc, List.singleton_append]
+    rw [this]
+    cases hs : store k with
+    | none => simp [specBody, Task.bst, hov, hdel, expBuffer]
+    | some v => simp [specBody, Task.bst, hov, hdel, expBuffer]
   case commitDel =>
     obtain ⟨hm, hspec, hdel⟩ := h
     subst hm
@@ -397,6 +441,7 @@ theorem taskStep_store (tid now : Nat) (store : Store) (lock : Locks) (t : Task)
   case finished o => rw [taskStep_finished _ _ _ _ _ hpc]; rfl
   case seedGet k n => rw [taskStep_seedGet _ _ _ _ _ hpc]; rfl
   case readGet k => rw [taskStep_readGet _ _ _ _ _ hpc]; rfl
+  case expGet k => rw [taskStep_expGet _ _ _ _ _ hpc]; rfl
   case direct c => rw [taskStep_direct _ _ _ _ _ hpc]; cases c <;> rfl
   case commitDel => rw [taskStep_commitDel _ _ _ _ _ hpc]; rfl
   case commitSet => rw [taskStep_commitSet _ _ _ _ _ hpc]; rfl
